@@ -308,7 +308,35 @@ namespace svmon
     }
   };
 
+  // 7. nothrow move constructor but throwing move assignment (and throwing copies)
+#define SVMON_MOVE_CTOR_NX_ASSIGN_THROW(Name)                                                    \
+    Name (Name&& o) noexcept : value (0)                                                         \
+    {                                                                                            \
+      ::svmon::REG ().on_source (&o, true);                                                      \
+      value = o.value;                                                                           \
+      o.value = ::svmon::MOVED_VALUE;                                                            \
+      serial = ::svmon::REG ().on_ctor (this);                                                   \
+    }                                                                                            \
+    Name& operator= (Name&& o) noexcept (false)                                                  \
+    {                                                                                            \
+      ::svmon::tick (::svmon::TK_MOVE_ASSIGN);                                                   \
+      if (this == &o) { ::svmon::REG ().on_assign_target (this); return *this; }                 \
+      ::svmon::REG ().on_source (&o, true);                                                      \
+      ::svmon::REG ().on_assign_target (this);                                                   \
+      value = o.value;                                                                           \
+      o.value = ::svmon::MOVED_VALUE;                                                            \
+      return *this;                                                                              \
+    }
+  struct TAssignThrow
+  {
+    SVMON_TRACKED_COMMON (TAssignThrow)
+    SVMON_DEFAULT_CTOR (TAssignThrow)
+    SVMON_COPY_OPS (TAssignThrow)
+    SVMON_MOVE_CTOR_NX_ASSIGN_THROW (TAssignThrow)
+  };
+
   template <typename T> struct is_tracked : std::false_type { };
+  template <> struct is_tracked<TAssignThrow> : std::true_type { };
   template <> struct is_tracked<TNx> : std::true_type { };
   template <> struct is_tracked<TThrow> : std::true_type { };
   template <> struct is_tracked<TMoveOnly> : std::true_type { };
@@ -324,6 +352,7 @@ namespace svmon
   template <> struct flavour_name<TMoveOnlyThrow> { static const char *get () { return "TMoveOnlyThrow"; } };
   template <> struct flavour_name<TCopyOnly> { static const char *get () { return "TCopyOnly"; } };
   template <> struct flavour_name<TSwapThrow> { static const char *get () { return "TSwapThrow"; } };
+  template <> struct flavour_name<TAssignThrow> { static const char *get () { return "TAssignThrow"; } };
 
   // value_of: the model value of an element
   inline int value_of (int x) { return x; }
